@@ -233,5 +233,33 @@ theorem clipDecision_spec (vb bbox : Rect α) :
         rw [this]
       · simp
 
+/-- C19 (the bounding-box shortcut is exact): `clip_to_viewbox` never looks at the viewBox itself when it cuts a shape — it drops
+    the shape when its bounding box misses the viewBox, leaves it alone when the box lies inside, and otherwise intersects it with
+    the rectangle `bbox ∩ viewBox`.  For any region `S` (the shape's open interior) that lies inside the bounding box this is the
+    same as intersecting with the viewBox: dropped shapes have no point in the viewBox, untouched shapes lie inside it, and a cut
+    shape keeps exactly its points inside the viewBox. -/
+theorem clip_decision_exact (vb bbox : Rect α) (S : Pt α → Prop) (hS : ∀ p, S p → inInterior bbox p) :
+    (clipDecision vb bbox = .drop → ∀ p, ¬ (S p ∧ inInterior vb p)) ∧
+    (∀ r, clipDecision vb bbox = .clip r → ∀ p, (S p ∧ inInterior r p) ↔ (S p ∧ inInterior vb p)) ∧
+    (clipDecision vb bbox = .keep → ∀ p, S p → inInterior vb p) := by
+  obtain ⟨h1, h2, h3⟩ := clipDecision_spec vb bbox
+  refine ⟨?_, ?_, ?_⟩
+  · intro hd p ⟨hs, hv⟩
+    exact (h1.mp hd) p ⟨hv, hS p hs⟩
+  · intro r hr p
+    obtain ⟨hi, _⟩ := h2 r hr
+    constructor
+    · rintro ⟨hs, hin⟩
+      have := (rect_inter_spec vb bbox p).mpr ⟨r, hi, hin⟩
+      exact ⟨hs, this.1⟩
+    · rintro ⟨hs, hv⟩
+      obtain ⟨r', hr', hin⟩ := (rect_inter_spec vb bbox p).mp ⟨hv, hS p hs⟩
+      rw [hi] at hr'; injection hr' with e; subst e
+      exact ⟨hs, hin⟩
+  · intro hk p hs
+    have hi := h3 hk
+    have := (rect_inter_spec vb bbox p).mpr ⟨bbox, hi, hS p hs⟩
+    exact this.1
+
 end
 end PicoSVG.C19
